@@ -21,7 +21,7 @@ RULE = {
              '-transformed-by) over all expressions x 24 texts; non-trivial: transformer output differs from its input, or matcher '
              'verdict differs from its verdict on the empty text; pairs are distinct by construction',
 }
-RULE['thorough'] = RULE['quick'].replace('every text of length <= 4 over {a,B,space,newline,.,e-acute} (1555)', 'every text of length <= 6 over {a,B,space,newline,.} and of length <= 5 with e-acute added (24307)')
+RULE['thorough'] = RULE['quick'].replace('every text of length <= 4 over {a,B,space,newline,.,e-acute} (1555)', 'every text of length <= 6 over {a,B,space,newline,.} and of length <= 5 with e-acute added (24956)')
 ASSUMPTIONS = [
     'REGEX and replacement strings have Python semantics (the manual defines them by reference to Python re)',
     'characters that str.splitlines treats as line breaks (\\r, \\f, ...) belong to C14 and are not in this alphabet',
